@@ -51,7 +51,7 @@ func TestC13_GenDiff(t *testing.T) {
 	if err != nil {
 		t.Fatal(err)
 	}
-	nsys := evid.Scale(8, 80)                 // ×VERIF_THOROUGH_X = 320 packages
+	nsys := evid.Scale(8, 160)                // ×VERIF_THOROUGH_X = 640 packages
 	perPkgQuick, perPkgThorough := 1500, 3000 // base budgets: ×5 quick, ×4 thorough
 	var specs []tschema.Schema
 	if evid.Shard() == 0 {
